@@ -107,6 +107,11 @@ def main():
     # synthetic histories that end inside the termination window but not at exactly beta = 1 (ESS-limited temperature in (1 - 1e-4, 1))
     for i, c in enumerate([dict(clustering=False), dict(clustering=True, sample="rwm", evaluation="vector")]):
         jobs.append({"conf": dict(c, n_particles=8), "seed": 1250 + i + ck.seed, "label": f"late-crossing#{i}", "n_total": 24, "oracle": "late_crossing", "flags": FLAGS[:4]})
+    # run(n_total') called again on the SAME sampler after run() returned (PSRun!RunAgain keeps the history): the postconditions and
+    # the posterior() contract hold for the second call too, for a larger and for a smaller n_total
+    for i, (c, nt2) in enumerate([(dict(clustering=False), 96), (dict(clustering=True, evaluation="blobs"), 16), (dict(clustering=True, sample="rwm", metric="vv"), 64)]):
+        c = {k: v for k, v in c.items() if k != "metric"}
+        jobs.append({"conf": dict(c, n_particles=8), "seed": 1270 + i + ck.seed, "label": f"run-again#{i}", "n_total": 32, "rerun": nt2, "flags": FLAGS})
     sc, traces = sysrun.system_part(ck, "C12", jobs, nontrivial)
     cov.update(sc)
     cov.update(sysrun.selftest(traces[0]))
